@@ -85,7 +85,7 @@ def vh(args, timeout=3600, check=True, stdout_path=None, env=None):
 
 def vh_json(args, timeout=3600, env=None):
     rc, out, err, dt = vh(args, timeout=timeout, env=env)
-    lines = [l for l in out.strip().splitlines() if l.startswith("{")]
+    lines = [l for l in out.strip().split("\n") if l.startswith("{")]     # not splitlines(): JSON may hold U+0085 / U+2028 unescaped
     if not lines:
         raise ToolError("vh %s produced no summary\n%s" % (args[0], err[-2000:]))
     return json.loads(lines[-1])
